@@ -76,6 +76,7 @@ import (
 	pk1pb "github.com/tink-crypto/tink-go/v2/proto/rsa_ssa_pkcs1_go_proto"
 	psspb "github.com/tink-crypto/tink-go/v2/proto/rsa_ssa_pss_go_proto"
 	tinkpb "github.com/tink-crypto/tink-go/v2/proto/tink_go_proto"
+	xaesgcmpb "github.com/tink-crypto/tink-go/v2/proto/x_aes_gcm_go_proto"
 )
 
 const tp = "type.googleapis.com/google.crypto.tink."
@@ -86,6 +87,7 @@ var modelled = map[string]bool{
 	tp + "AesCtrHmacAeadKey": true, tp + "AesSivKey": true, tp + "HkdfPrfKey": true, tp + "HmacPrfKey": true,
 	tp + "AesCmacPrfKey": true, tp + "EcdsaPublicKey": true, tp + "EcdsaPrivateKey": true,
 	tp + "RsaSsaPkcs1PublicKey": true, tp + "RsaSsaPssPublicKey": true,
+	tp + "ChaCha20Poly1305Key": true, tp + "XChaCha20Poly1305Key": true, tp + "XAesGcmKey": true,
 }
 
 // unmodelled: every other type URL with a registered key parser (the list
@@ -93,7 +95,7 @@ var modelled = map[string]bool{
 var unmodelled = map[string]bool{}
 
 func init() {
-	for _, n := range []string{"ChaCha20Poly1305Key", "XChaCha20Poly1305Key", "XAesGcmKey", "AesCtrHmacStreamingKey",
+	for _, n := range []string{"AesCtrHmacStreamingKey",
 		"AesGcmHkdfStreamingKey", "EciesAeadHkdfPublicKey", "EciesAeadHkdfPrivateKey", "HpkePublicKey", "HpkePrivateKey",
 		"PrfBasedDeriverKey", "JwtEcdsaPublicKey", "JwtEcdsaPrivateKey", "JwtHmacKey", "JwtRsaSsaPkcs1PublicKey",
 		"JwtRsaSsaPkcs1PrivateKey", "JwtRsaSsaPssPublicKey", "JwtRsaSsaPssPrivateKey", "JwtMlDsaPublicKey",
@@ -552,6 +554,11 @@ func weakKey(kd *tinkpb.KeyData) string {
 			if k.GetHmacKey().GetParams().GetTagSize() < 10 {
 				return "HMAC tag under 10 bytes"
 			}
+		}
+	case "XAesGcmKey":
+		k := &xaesgcmpb.XAesGcmKey{}
+		if proto.Unmarshal(v, k) == nil {
+			return aesWeak(len(k.GetKeyValue()))
 		}
 	case "AesGcmHkdfStreamingKey":
 		k := &gcmhkdfpb.AesGcmHkdfStreamingKey{}
